@@ -84,7 +84,9 @@ DOMXPathExpressionImpl::DOMXPathExpressionImpl(const XMLCh *expression, const DO
     try
     {
         WrapperForXPathNSResolver wrappedResolver(fStringPool, resolver, fMemoryManager);
-        fParsedExpression = new (fMemoryManager) XercesXPath(fExpression, fStringPool, &wrappedResolver, 0, true, fMemoryManager);
+        // a name test without prefix selects elements in no namespace: give "no namespace" a proper id
+        // (with id 0 QName::operator== compares raw names only, whatever the namespace)
+        fParsedExpression = new (fMemoryManager) XercesXPath(fExpression, fStringPool, &wrappedResolver, fStringPool->addOrFind(XMLUni::fgZeroLenString), true, fMemoryManager);
     }
     catch(const XPathException& )
     {
@@ -165,7 +167,8 @@ DOMXPathResult* DOMXPathExpressionImpl::evaluate(const DOMNode *contextNode,
 
 bool DOMXPathExpressionImpl::testNode(XPathMatcher* matcher, DOMXPathResultImpl* result, DOMElement *node) const
 {
-    int uriId=fStringPool->addOrFind(node->getNamespaceURI());
+    const XMLCh* nodeURI=node->getNamespaceURI();
+    int uriId=fStringPool->addOrFind(nodeURI ? nodeURI : XMLUni::fgZeroLenString);
     QName qName(node->getNodeName(), uriId, fMemoryManager);
     SchemaElementDecl elemDecl(&qName);
     DOMNamedNodeMap* attrMap=node->getAttributes();
@@ -174,7 +177,8 @@ bool DOMXPathExpressionImpl::testNode(XPathMatcher* matcher, DOMXPathResultImpl*
     for(XMLSize_t i=0;i<attrCount;i++)
     {
         DOMAttr* attr=(DOMAttr*)attrMap->item(i);
-        attrList.addElement(new (fMemoryManager) XMLAttr(fStringPool->addOrFind(attr->getNamespaceURI()),
+        const XMLCh* attrURI=attr->getNamespaceURI();
+        attrList.addElement(new (fMemoryManager) XMLAttr(fStringPool->addOrFind(attrURI ? attrURI : XMLUni::fgZeroLenString),
                                                          attr->getNodeName(),
                                                          attr->getNodeValue(),
                                                          XMLAttDef::CData,
